@@ -34,6 +34,7 @@ const (
 	EqConst                   // result == named constant / != others: see Guard.Consts
 	LenNonZero                // len(result) != 0 / > 0
 	ErrIs                     // errors.Is/As(result, one of Accept) is true
+	ErrNotIs                  // errors.Is/As(result, one of Accept) is false (combine with NonNil for 'definitely failed')
 )
 
 // Comp is one component of a guard's pass condition.
@@ -687,6 +688,16 @@ func (gf *GuardFlow) eval(v ssa.Value, r resRef, depth int) tri {
 		}
 	case *ssa.Call:
 		name := CalleeName(x)
+		if (name == "errors.Is" || name == "errors.As") && len(x.Call.Args) == 2 && comp.Kind == ErrNotIs {
+			if gf.isResult(x.Call.Args[0], r) {
+				tgt := errTargetName(x.Call.Args[1])
+				for _, a := range comp.Accept {
+					if a == tgt {
+						return triT // failing means: it IS an accepted error
+					}
+				}
+			}
+		}
 		if (name == "errors.Is" || name == "errors.As") && len(x.Call.Args) == 2 && (comp.Kind == ErrNil || comp.Kind == ErrIs) {
 			if gf.isResult(x.Call.Args[0], r) {
 				tgt := errTargetName(x.Call.Args[1])
@@ -694,6 +705,14 @@ func (gf *GuardFlow) eval(v ssa.Value, r resRef, depth int) tri {
 					if a == tgt {
 						return triF // failing means: non-nil and not an accepted error
 					}
+				}
+			}
+		}
+		// repo-specific error predicates listed as "fn:<callee>" in Accept
+		if (comp.Kind == ErrNil || comp.Kind == ErrIs) && len(x.Call.Args) >= 1 && gf.isResult(x.Call.Args[0], r) {
+			for _, a := range comp.Accept {
+				if a == "fn:"+name {
+					return triF
 				}
 			}
 		}
@@ -943,6 +962,32 @@ func CheckSuccess(p *Prog, h *RuleH, r SuccessRule) {
 		h.r.Fatalf("%s: anchor function %s not found", h.ID(), r.Fn)
 		return
 	}
+	CheckSuccessFn(p, h, fn, r)
+}
+
+// SuccessHolds evaluates a SuccessRule quietly: true when fn has at least one success
+// return and every success return satisfies the rule. Used to recognise guard *wrappers*
+// (a helper whose nil result implies the inner guard passed).
+func SuccessHolds(p *Prog, fn *ssa.Function, r SuccessRule) bool {
+	tmp := NewReport("tmp", "other", "quick")
+	h := tmp.Rule("tmp", "", 0)
+	r.MinReturns = 1
+	CheckSuccessFn(p, h, fn, r)
+	if len(tmp.Fatal) > 0 || len(tmp.Obls) == 0 {
+		return false
+	}
+	for _, o := range tmp.Obls {
+		if o.Status != Discharged {
+			return false
+		}
+	}
+	return true
+}
+
+func CheckSuccessFn(p *Prog, h *RuleH, fn *ssa.Function, r SuccessRule) {
+	if r.Fn == "" {
+		r.Fn = FuncName(fn)
+	}
 	gf := Flow(fn, r.Guards, r.Derived...)
 	nret := 0
 	need := map[string]bool{}
@@ -1051,8 +1096,15 @@ func classifySuccess(v ssa.Value, successBool bool) tri {
 		return triF // a concrete non-nil error value
 	case *ssa.Call:
 		n := CalleeName(x)
-		if n == "fmt.Errorf" || n == "errors.New" || n == "errors.Join" || strings.HasSuffix(n, "status.Error") || strings.HasSuffix(n, "status.Errorf") {
+		if n == "fmt.Errorf" || n == "errors.New" {
 			return triF
+		}
+		if strings.HasSuffix(n, "grpc/status.Error") || strings.HasSuffix(n, "grpc/status.Errorf") {
+			// status.Error(codes.OK, …) returns nil: a failure only for a constant non-OK code
+			if c, ok := intConst(x.Call.Args[0]); ok && c != 0 {
+				return triF
+			}
+			return triU
 		}
 	case *ssa.UnOp:
 		if x.Op == token.MUL {
